@@ -183,7 +183,16 @@ impl Exec {
         if let SubKind::Func = kind {
             self.obs.import_calls += 1;
         }
-        let rc = with(|h| h.import_call(0, [1, 0, 0], 0));
+        // `pause` exists to suspend the export body: its default answer is STARTING, so that the
+        // cancellation of a suspended export costs one deviation less
+        let blocked = matches!(kind, SubKind::Pause);
+        let rc = with(|h| {
+            let old = h.prefer_blocked;
+            h.prefer_blocked = blocked;
+            let rc = h.import_call(0, [1, 0, 0], 0);
+            h.prefer_blocked = old;
+            rc
+        });
         self.subs.push(SubMeta { kind, raw, started: false, returned: false });
         self.sync_subs();
         rc
